@@ -151,9 +151,9 @@ Theorem helpers_added_to_a_field_are_registered : forall tm sc ss ip a n ty d x 
   forall f T, In f (added_for tm sc ip' a ty (x :: sub)) -> In T (reg_types sc ty) ->
   (* ... unless the client selected the field himself in the fragment on that very type *)
   (kind_of sc ty = KOther \/ frag_has (selection_for tm sc ip' a ty (x :: sub)) T f = false) ->
-  (* ... or, under that response key at that place, through a fragment that applies to objects of that type (since
-     fix 75235b9: such a field is the client's own and stays in the answer) *)
-  (forall n' ty' d' sub', occ ss ip (SanField a n' ty' d' sub') ip' -> ~ In (T, f) (client_selected sc sub')) ->
+  (* ... or, in any selection of that response key at that place, directly or through a fragment that applies to
+     objects of that type (since fixes 75235b9, 360a3f6: such a field is the client's own and stays in the answer) *)
+  (forall n' ty' d' sub', occ ss ip (SanField a n' ty' d' sub') ip' -> ~ selected_for (client_selected sc sub') T f) ->
   In ((ip' ++ [a])%list, T, f) (snd (sanitize tm sc ss ip)).
 Proof. exact added_helpers_are_registered. Qed.
 (* ... what is added are `__typename` and `id` only, and only when the client did not select the field on that level *)
